@@ -3,6 +3,7 @@ package checks
 import (
 	"context"
 	"fmt"
+	"os"
 	"sort"
 	"strings"
 	"sync"
@@ -86,6 +87,9 @@ func C03(o *core.Options) int {
 			models = append(models, m)
 		}
 	}
+	if os.Getenv("VERIF_ONLY_FLAT") != "" { // development aid
+		models = nil
+	}
 	r.Set("models_in_family", len(models))
 	nodes := e2.RequestNodes(ref.DefaultUniverse())
 	type perModel struct {
@@ -95,7 +99,7 @@ func C03(o *core.Options) int {
 	cache := sync.Map{}
 	var engPool sync.Pool
 	engPool.New = func() any { return newV1Engine(v1cfgs[0]) }
-	e2.Sweep(r, models, e2.SweepOpts{K: 2, ServerOpts: []server.OpenFGAServiceV1Option{server.WithRequestTimeout(0), server.WithExperimentals("weighted_graph_check")}}, func(env *e2.Env, w *ref.World) {
+	body := func(env *e2.Env, w *ref.World) {
 		if len(w.Tuples) == 0 {
 			return
 		}
@@ -268,7 +272,22 @@ func C03(o *core.Options) int {
 				}
 			}
 		}
+	}
+	so := e2.SweepOpts{K: 2, ServerOpts: []server.OpenFGAServiceV1Option{server.WithRequestTimeout(0), server.WithExperimentals("weighted_graph_check")}}
+	e2.Sweep(r, models, so, body)
+	// nested set operators over one object (ref.FlatFamily), up to 4 tuples
+	so.K, so.U = 4, ref.FlatUniverse()
+	nodes = e2.RequestNodes(so.U)
+	flat := e2.ValidModels(ref.FlatFamily())
+	if !o.Thorough() {
+		flat = ref.EveryNth(flat, 2, int(o.Seed))
+	}
+	r.Set("flat_family_models", len(flat))
+	e2.Sweep(r, flat, so, func(env *e2.Env, w *ref.World) {
+		r.Count("worlds_flat_family", 1)
+		body(env, w)
 	})
+	nodes = e2.RequestNodes(ref.DefaultUniverse())
 	return r.Finish()
 }
 
